@@ -735,6 +735,15 @@ func detectExeType(src []byte, codeStart, codeEnd *int) byte {
 		}
 	}
 
+	// The header may be corrupted (or is not an executable header at all): the bounds it
+	// provided cannot be trusted. The scan below reads up to 4 bytes ahead.
+	if limit := len(src) - 4; *codeStart < 0 || *codeStart > *codeEnd || *codeStart > limit {
+		*codeStart = 0
+		*codeEnd = max(limit, 0)
+	} else if *codeEnd > limit {
+		*codeEnd = limit
+	}
+
 	jumpsX86 := 0
 	jumpsARM64 := 0
 	count := *codeEnd - *codeStart
